@@ -69,12 +69,16 @@ impl Layer for TL {
 }
 type Tree = BTreeMap<PathBuf, String>;
 fn tree(p: &Path) -> Tree { if p.exists() { snapshot(p, &[]).into_iter().map(|(k, d, _m)| (k, d)).collect() } else { Tree::new() } }
-// what the API should leave for a payload: written by the real writers into a scratch layer (env) and stated directly (the rest)
+// what the API should leave for a payload, stated literally from the CNB layout (NOT produced by the writers under test)
 fn expected_env_tree(p: u8) -> (Tree, Tree, Tree) {
     if p == 2 { return (Tree::new(), Tree::new(), Tree::new()); }
-    let t = tempfile::tempdir().unwrap();
-    payload_env(p).write_to_layer_dir(t.path()).unwrap();
-    (tree(&t.path().join("env")), tree(&t.path().join("env.build")), tree(&t.path().join("env.launch")))
+    let f = |b: &[u8]| format!("file:{:?}", b.to_vec());
+    let mk = |es: Vec<(&str, String)>| -> Tree { es.into_iter().map(|(k, v)| (PathBuf::from(k), v)).collect() };
+    let all = mk(vec![("ALL.override", f(format!("all-{p}").as_bytes()))]);
+    let build = mk(vec![("BUILD.append", f(format!("build-{p}\n").as_bytes())), ("BUILD.delim", f(b":"))]);
+    let launch = if p == 1 { mk(vec![("LAUNCH.default", f(b"launch")), ("web", "dir".to_string()), ("web/WEB.prepend", f(b"web-1"))]) }
+        else { mk(vec![("worker", "dir".to_string()), ("worker/WORKER.override", f(b"worker-0"))]) };
+    (all, build, launch)
 }
 
 pub fn layers(thorough: bool) -> Report {
@@ -169,6 +173,14 @@ fn run(seq: &[Step], r: &mut Report) {
         let reread_env_tree = { let t2 = tempfile::tempdir().unwrap(); data.env.write_to_layer_dir(t2.path()).unwrap(); let t3 = tempfile::tempdir().unwrap(); LayerEnv::read_from_layer_dir(&x).unwrap().write_to_layer_dir(t3.path()).unwrap(); (tree(t2.path()), tree(t3.path())) };
         if reread_env_tree.0 != reread_env_tree.1 || data.path != x || on_disk.as_ref().map(|l| (&l.metadata, l.types)) != Some((&data.content_metadata.metadata, data.content_metadata.types)) {
             fail("returned_data", "the returned layer data equals what is on disk", "env / metadata / types / path as on disk".into(), format!("path {:?} metadata {:?}", data.path, data.content_metadata));
+        }
+        // the returned environment itself (not via the writers): the per-process and launch entries the call-back returned are in it
+        if (outcome == "create" || outcome == "update") && st.payload != 2 {
+            let (scope, var, want) = if st.payload == 1 { (Scope::Process("web".into()), "WEB", "web-1".to_string()) } else { (Scope::Process("worker".into()), "WORKER", "worker-0".to_string()) };
+            let got = data.env.apply_to_empty(scope.clone());
+            if got.get(var).map(|v| v.to_string_lossy().to_string()) != Some(want.clone()) || got.get("ALL").map(|v| v.to_string_lossy().to_string()) != Some(format!("all-{}", st.payload)) {
+                fail("returned_data", "the returned layer data carries the environment the call-back returned, per-process entries included", format!("{var}={want} and ALL=all-{} for {scope:?}", st.payload), format!("{:?} / {:?}", got.get(var), got.get("ALL")));
+            }
         }
         if snapshot(&layers, &skip) != outside_before { fail("frame", "other layers are untouched", "unchanged".into(), "changed".into()); }
     }
